@@ -3,7 +3,7 @@ CONSTANTS
   NCol = 3
   NRow = 3
   SRow = 2
-  Ops = {"remove", "clear", "clone_from"}
+  Ops = {"clone_from"}
   Guarded = FALSE
 INVARIANT PanicSafe
 CHECK_DEADLOCK FALSE
